@@ -1018,7 +1018,9 @@ def run(tier):
              returned=sum(1 for r in res if r["key"].endswith(":returned")))
     st, ok = bfs(["E", "P12", "R23"], "full", 2, ev, findings, pool, dl, samples, "full alphabet")
     ev.extra["levels_full"] = st
-    st, ok = bfs(["KS"], "ks", 1 if tier == "quick" else 2, ev, findings, pool, dl, samples, "operations that name neither entry, from the state with a saved surface tied to a kinetic reactant")
+    # depth 1 in both tiers: a second operation could act on copies / mixtures of the linked pair made by the first one (a surface
+    # copied to number 3 is then tied to a KINETICS 3 that may not exist), which is the engine's documented coupling, not the store's
+    st, ok = bfs(["KS"], "ks", 1, ev, findings, pool, dl, samples, "operations that name neither entry, from the state with a saved surface tied to a kinetic reactant")
     ev.extra["levels_ks"] = st
     if tier == "thorough" and ok:
         for i, g in enumerate(KIND_GROUPS):
